@@ -680,6 +680,10 @@ def gen_special(L, K, rng, nsteps):
                     v.aid = dv.aid
                     if not dv.null and dv.block >= sv.block:
                         v.block = dv.block
+                    else:
+                        # recorded finding move-assign-units (C05): the new block is requested as
+                        # memory_consumption() UNITS - SA times the source's bytes
+                        v.block = sv.block * SA(L)
                     v.null = False
                     g.slots[d] = v
                     g.moved[d] = False
@@ -708,6 +712,13 @@ def gen_special(L, K, rng, nsteps):
             g.moved[s] = False
         if rng.random() < 0.08:
             g.lines.append("junk %d" % rng.choice([0, 85, 170, 255]))
+        if any(v is not None and v.block > (1 << 20) for v in g.slots):
+            # a chain of element-wise move assignments multiplies the footprint by the storage
+            # alignment each time (that finding): 5 bytes become gigabytes after five of them on
+            # a 64-aligned list, and every later copy carries the size along.  The script ends
+            # here - what the growth means for C05 is judged where it happens
+            g.stat("footprint-explosion-stop")
+            break
     return g.finish(), g.stats
 
 
